@@ -77,6 +77,14 @@ def run(plan):
             if o.kind != "ok" or (opn == "refresh" and not ac.online):
                 res.fail(f"clean {opn} failed", repr(o))
                 return
+        if plan.get("caps_with_extra") and s.version == 3:
+            # history: a capability query whose exchange also carried a valid frame of another kind (an
+            # unsolicited state report in the same segment), and no good refresh before the corrupted one
+            o = await s.do({"op": "caps", "net": [{"pre": ["unsol_state"]}]})
+            if o.kind != "ok":
+                res.fail("get_capabilities with an extra frame failed", repr(o))
+                return
+            w.fire("caps_exchange_with_extra_valid_frame")
         snap0 = snapshot(ac)
         # the device's data changes
         dev.state.update(NEW_STATE)
@@ -175,8 +183,9 @@ def space(tier):
             def fn(j, rng, kind=kind, positions=positions, fixup=fixup):
                 pos = positions[j // nvals % len(positions)]
                 delta = (j % nvals) + 1 if nvals == 255 else rng.randrange(1, 256)
-                version = 2 + (j // (nvals * len(positions))) % 2
-                return {"config": cfg(version), "kind": kind, "corrupt": [pos, delta, fixup]}
+                version = 2 + (j + j // nvals) % 2
+                return {"config": cfg(version), "kind": kind, "corrupt": [pos, delta, fixup],
+                        "caps_with_extra": rng.random() < 0.3}
             reps = 2 if tier == "thorough" else 1
             sp.add(f"{label}_{kind}", len(positions) * nvals * reps, fn, exhaustive=(nvals == 255))
     return sp
